@@ -1,6 +1,7 @@
 /*
  * C10 e2e: script-driven dlopen timeline (checks/c10.py), compiled with -pg.
  * argv: o<k>=<path>   h[k] = dlopen(path)
+ *       n<k>=<path>   h[k] = dlopen(path, RTLD_NOLOAD)   (NULL when the library is not loaded)
  *       r<k>=<sym>    call the function <sym> of h[k]
  *       c<k>          dlclose(h[k])
  * c10_op(i) is called (and recorded) before the i-th operation; the loader's list is
@@ -42,12 +43,16 @@ int main(int argc, char **argv)
 				return 3;
 			}
 		}
+		else if (a[0] == 'n') {
+			res = h[k] = dlopen(a + 3, RTLD_LAZY | RTLD_NOLOAD);
+		}
 		else if (a[0] == 'c') {
 			res = h[k];
-			dlclose(h[k]);
+			if (h[k])
+				dlclose(h[k]);
 			h[k] = NULL;
 		}
-		else if (a[0] == 'r') {
+		else if (a[0] == 'r' && h[k]) {
 			int (*f)(int) = (int (*)(int))dlsym(h[k], a + 3);
 
 			if (f == NULL) {
